@@ -18,6 +18,13 @@ fn main() {
   let seed: u64 = std::env::var("VERIF_SEED").ok().and_then(|s| s.parse().ok()).unwrap_or(1);
   let code = if args[2] == "--replay" {
     run::replay_file(prop, &args[3])
+  } else if args[2] == "--chunk" {
+    // internal: one chunk of a large random part in its own process (run::random_part_chunked)
+    let n = |i: usize| args.get(i).and_then(|s| s.parse::<u64>().ok()).unwrap_or(0);
+    run::chunk_main(prop, n(3) as usize, n(4), n(5), args.get(6).map(|s| s.as_str()).unwrap_or("/dev/null"))
+  } else if args[2] == "--find" {
+    // debugging aid: rxv <ID> --find <label> [part]  - generate cases until one carries the label, save it as a replay file
+    run::find_label(prop, &args[3], args.get(4).and_then(|s| s.parse().ok()).unwrap_or(0), seed)
   } else if args[2] == "--emit-corpus" {
     // seed corpus for the libFuzzer campaign: byte tapes from a fixed PRNG (xorshift) of the run's seed
     let dir = std::path::Path::new(&args[3]);
